@@ -12,6 +12,7 @@ EXPLANATION = (
     "output in iteration order; <for> binds the item (and index) before the body, once per item; <if> processes its body only "
     "on the true edge of its test and otherwise returns nothing; a condition is true iff its value is != 0. "
     "Undecided: equality with the manually unrolled document (needs the two outputs)."
+    " Also: the loop variable is assigned only in passes that render; start/step defaults are independent (A17 reference); <loop>/<for> accumulate their extent with BoundingBoxBuilder."
 )
 TRUSTED = ["Vec::into_iter yields the items in order"]
 ASSUMPTIONS = []
